@@ -63,7 +63,8 @@ Record cevx := mkEv { ev : cev; e_paired : bool; e_auto : bool; e_allow : bool; 
 (* ------------------------------------------------------------------ observations *)
 Inductive smsg := SInit | SHelloReady | SHelloPending | SHelloProlong | SHelloAborted
                 | SProtAnnounce | SProtSelect | SProtErr (n : N) | SPin | SAccReq | SAcc
-                | SData | SCloseAnnounce | SCloseConfirm.
+                | SData | SCloseAnnounce | SCloseConfirm
+                | SUnknown.     (* a frame ship-go never writes; only arises when reading implementation traces *)
 
 (* close code / reason of CloseDataConnection: 4001 with or without reason text, 4452 with
    reason, or whatever the caller of CloseConnection passed *)
